@@ -426,6 +426,19 @@ static ASMJIT_FAVOR_SIZE Error validate(InstDB::Mode mode, const BaseInst& inst,
             return make_error(Error::kInvalidAddress);
           }
 
+          // BASE and INDEX are encoded with one address size: two general purpose registers must have the same type
+          // and a vector index cannot be combined with a 16-bit base (16-bit addressing has no SIB byte).
+          if (base_type >= RegType::kGp16 && base_type <= RegType::kGp64 && !m.is_reg_home()) {
+            if (index_type >= RegType::kGp16 && index_type <= RegType::kGp64) {
+              if (ASMJIT_UNLIKELY(index_type != base_type)) {
+                return make_error(Error::kInvalidAddress);
+              }
+            }
+            else if (ASMJIT_UNLIKELY(base_type == RegType::kGp16)) {
+              return make_error(Error::kInvalidAddress);
+            }
+          }
+
           uint32_t index_id = m.index_id();
           if (index_id < Operand::kVirtIdMin) {
             if (ASMJIT_UNLIKELY(index_id >= 32)) {
